@@ -61,6 +61,15 @@ def mutations(f, c, r, exhaustive=False, per_region=2):
     # extensions
     for extra in (1, 15, 16, 17, CH):
         out.append(Mut(f + rnd_bytes(r, extra), "extend", n, n + extra, "extended by %d bytes" % extra))
+    # length-extension shape: the padding a Merkle-Damgard hash itself would append to the authenticated region (0x80, zeros,
+    # 64-bit bit length of key block + region, big-endian for SHA-1/SHA-256, little-endian for MD5), so that the extended region is
+    # a whole number of 64-byte blocks whose chaining value equals the authentic file's finished inner hash
+    R = n - 48
+    if R % 64 != 0:
+        z = (55 - R) % 64
+        bits = 8 * (64 + R)
+        out.append(Mut(f + b"\x80" + bytes(z) + bits.to_bytes(8, "little" if c.hm == 1 else "big"), "extend/hash-padding-of-the-authenticated-region", n, n + 9 + z, "extended by the hash's own padding of [48, EOF)"))
+        out.append(Mut(f + b"\x80" + bytes((63 - R) % 64), "extend/hash-padding-without-length", n, n + 1 + (63 - R) % 64, "extended by 0x80 and zeros up to a 64-byte boundary of [48, EOF)"))
     # insert / delete
     for _ in range(4 if not exhaustive else 12):
         o = r.randrange(n + 1)
